@@ -93,13 +93,13 @@ class Splitter:
             self._current_char_index = m.start()
             return m
 
-        # Get next mark from iterator
+        # Get next mark from iterator (newline marks only advance the line counter)
         m = next(self._markiter, None)
+        while m is not None and m.group(0) == "\n":
+            self._current_line += 1
+            m = next(self._markiter, None)
         if m is not None:
             self._current_char_index = m.start()
-            if m.group(0) == "\n":
-                self._current_line += 1
-                return self._next_mark(accept_eof=accept_eof)
         else:
             # Reached end of file
             self._current_char_index = len(self.bibstr)
